@@ -25,7 +25,7 @@ GenModels == {Cat.models[i].id : i \in {j \in DOMAIN Cat.models : Cat.models[j].
 \* specification, used by the text fuzzer only
 FuzzModels == {Cat.models[i].id : i \in {j \in DOMAIN Cat.models : Cat.models[j].family \in {"fuzz", "req", "dumpinv"}}}
 AllModels == {Cat.models[i].id : i \in DOMAIN Cat.models} \ (GenModels \cup FuzzModels)
-AliasModels == {"collections", "plain", "enum_str", "parsed", "extra", "hooks", "mixany", "setval", "extracyc", "dashed_sav", "dashed", "tree", "gen4", "gen7", "gen8", "gen9", "floatint", "enumsav", "seqstr"}
+AliasModels == {"collections", "plain", "enum_str", "parsed", "extra", "hooks", "mixany", "setval", "extracyc", "dashed_sav", "dashed", "tree", "gen4", "gen7", "gen8", "gen9", "floatint", "enumsav", "seqstr", "contany", "pathdate"}
 
 \* cheap structural invariants checked in every state
 TypeOK ==
